@@ -17,10 +17,9 @@ theorem C09_timeout (n : Nat) : probeTimeout n = n + max (n / 20) 1 ∧ n < prob
 
 /-- … and that is the formula in the source -/
 theorem C09_consts :
-    Generated.consts.lookup "session.Session.start.tolerance"
-        = some "int(math.Max(float64(s.LogonSettings.HeartBtInt/20), 1))"
-    ∧ Generated.consts.lookup "session.Session.start.incomingMsgTimer"
-        = some "utils.NewTimer(time.Second * time.Duration(s.LogonSettings.HeartBtInt+tolerance))" := by decide
+    Generated.formulas.contains ("timer-arg",
+      "time.Second * time.Duration($r.LogonSettings.HeartBtInt+int(math.Max(float64($r.LogonSettings.HeartBtInt/20), 1)))") = true
+    ∧ (Generated.formulas.filter (·.1 == "timer-arg")).length = 2 := by decide
 
 /-- a peer that sends something at least every N seconds never lets the inbound timer expire:
     if at every poll the last inbound message is at most `N` old, no poll fires -/
